@@ -484,6 +484,10 @@ def binop(I, fr, op, l, r, node):
         for at_, (key_, n_) in I.revfirst.items():
             if at_ in sym.atoms() and sym + LinExpr(at_) == n_ - 1:
                 ext = ("hi", key_)            # len(mask) - 1 - argmax(mask reversed): the last True position
+            elif at_ in sym.atoms() and (sym + LinExpr(at_) - n_).is_const() and dict(sym.t).get(at_) == -1:
+                # len(mask) - k - argmax(mask reversed) with k != 1: a position next to the last True one -- a located near miss of the idiom
+                I.emit("idiom-miss", fr, node, what="len(mask) - %s - argmax(reversed mask): not the last True position (that is len - 1 - argmax)" %
+                       (-(sym + LinExpr(at_) - n_).c))
     return AV(kind=kind, dtype=dtype, origin=origin, shape=shape, sym=sym, alg=alg, sign=sign, mono=mono,
               const=c, expo=expo, tags=tags_of(l, r) | span_tag | (frozenset(["div:true"]) if (isinstance(op, ast.Div) and kind == K_SCALAR) else frozenset()),
               indef=indef_of(l, r), f0=f0, ext=ext, parts=_ap_binop(op, l, r),
@@ -535,13 +539,26 @@ def compare(I, fr, op, l, r, node):
     def boolres(c=_NOCONST, alg=None, shape=()):
         return AV(kind=K_BOOL if shape == () else K_ARRAY, dtype="bool", shape=shape, const=c, alg=alg or {},
                   tags=tags, indef=indef, sign=S_NONNEG, origin=frozenset(["lit"]))
+    if isinstance(op, (ast.Is, ast.IsNot, ast.Eq, ast.NotEq)) and any(isinstance(x.note, tuple) and x.note and x.note[0] == "type-of" for x in (l, r)):
+        # type(x) is np.ndarray / list / tuple ...: definitely false when x is known to be of another kind of container
+        tv, cls_ = (l, r) if (isinstance(l.note, tuple) and l.note and l.note[0] == "type-of") else (r, l)
+        cname = None
+        if cls_.ref is not None and isinstance(cls_.ref[1], str):
+            cname = cls_.ref[1].split(".")[-1]
+        want = {"ndarray": K_ARRAY, "list": K_LIST, "tuple": K_TUPLE, "dict": K_DICT, "str": K_STR}.get(cname)
+        res = None
+        if want is not None and tv.note[1] in (K_ARRAY, K_LIST, K_TUPLE, K_DICT, K_STR, K_NONE) and tv.note[1] != want:
+            res = False
+        if res is not None:
+            return boolres(res if isinstance(op, (ast.Is, ast.Eq)) else not res)
+        return boolres(alg=alg_lub_many([l, r]))
     if isinstance(op, (ast.Is, ast.IsNot)):
         res = None
         if r.kind == K_NONE or l.kind == K_NONE:
             o = l if r.kind == K_NONE else r
             if o.kind == K_NONE:
                 res = True
-            elif o.kind != K_TOP:
+            elif o.kind != K_TOP and "maybe-none" not in o.tags:
                 res = False
         elif l.has_const() and r.has_const() and isinstance(l.const, bool) and isinstance(r.const, bool):
             res = l.const is r.const
@@ -1166,6 +1183,8 @@ def call_builtin(I, fr, name, args, kwargs, node):
     if name in ("any", "all"):
         return AV(kind=K_BOOL, dtype="bool", shape=(), alg=dict(a0.alg) if a0 is not None else {},
                   tags=tags_of(*args))
+    if name == "type" and len(args) == 1:
+        return AV(kind=K_TOP, note=("type-of", args[0].kind))        # type(x): compared with `is` / `==` against a class below
     if name in ("id", "type"):
         return AV(kind=K_TOP)
     if name == "map" and len(args) >= 2 and all(a.kind in (K_TUPLE, K_LIST) and a.items is not None for a in args[1:]) and \
